@@ -63,7 +63,121 @@ def strategy(tier):
     return _case(tier)
 
 
+def enumerate_cases(tier):
+    """Long reference lists: N pids sharing one object so that the list crosses the block sizes a reader may use (lines of 64
+    bytes put EVERY power-of-two boundary up to the list's size exactly behind a newline; lines of 61 bytes put the boundaries
+    inside lines), and single very long pids whose line ends exactly at / one before / one after a boundary."""
+    cfg = {"algo": "SHA-256", "depth": 3, "width": 2}
+    for line, total in ([(64, 66000)] if tier == "quick" else [(64, 66000), (61, 66000), (64, 132000), (128, 132000), (32, 33000)]):
+        yield {"family": "long-list", "cfg": cfg, "contents": [{"hex": "6c6f6e67"}], "line": line, "n": total // line + 1}
+    # a delete_object that FAILS (one injected I/O error at each of its fault sites): whatever it leaves, a pid that is still
+    # bound afterwards must still be served its bytes.  Contents are chosen so that the cid ends in every pair of the hex
+    # digits that also occur in the '_delete' marker suffix, and in other digits.
+    from .. import scen
+    for kind in ("delete_sole", "delete_with_meta", "delete_shared", "delete_listed_first"):
+        for tail in (("de", "0") if tier == "quick" else ("de", "ed", "dd", "ee", "e", "d", "0", "f")):
+            for algo in (("SHA-256",) if tier == "quick" else ("SHA-256", "MD5", "SHA-512")):
+                c = {"algo": algo, "depth": 2, "width": 2}
+                yield {"family": "faulted-delete", "kind": kind, "tail": tail, "cfg": c,
+                       "contents": [gen.content_with_digest_tail(common.STORE_ALGOS[algo], tail), {"hex": "6f74686572"}],
+                       "docs": [{"hex": "3c612f3e"}, {"hex": "3c622f3e"}], "start": scen.prerequisites(kind), "target": scen.target_op(kind)}
+    for L in ((4095, 65535) if tier == "quick" else (4095, 4096, 8191, 8192, 65534, 65535, 65536, 131071)):
+        for first in (True, False):
+            yield {"family": "long-pid", "cfg": cfg, "contents": [{"hex": "6c6f6e67"}], "len": L, "long_first": first}
+
+
+def _long_list(case, ctx):
+    import os
+    run = seq.Run(case, ctx)
+    cfg, s, data = run.cfg, run.store, run.contents[0]
+    cid = cfg.digest(data)
+    obj = os.path.join(run.root, cfg.obj_rel(cid))
+    lst = os.path.join(run.root, cfg.cidref_rel(cid))
+    if case["family"] == "long-pid":
+        long_pid = ("L" * case["len"])[:case["len"] - 4] + "/end"
+        pids = [long_pid, "short:pid"] if case["long_first"] else ["short:pid", long_pid]
+    else:
+        w = case["line"] - 1
+        pids = [f"{i:05d}/".ljust(w, "p") for i in range(case["n"])]
+    what = f"{len(pids)} pids of {len(pids[0])}/{len(pids[-1])} characters sharing one object"
+    out = common.call(s.store_object, pids[0], run.cpaths[0])
+    if not is_ok(out):
+        ctx.violation("referenced-object-lost", f"{what}: the first store_object raised {out[1]}: {out[2][:160]}", {"op": "store", "err": out[1]})
+    for i, p in enumerate(pids[1:], 1):
+        out = common.call(s.tag_object, p, cid) if i % 7 else common.call(s.store_object, p, run.cpaths[0])
+        if not is_ok(out):
+            ctx.violation("referenced-object-lost", f"{what}: binding pid #{i + 1} to the shared object raised {out[1]}: {out[2][:200]} "
+                          f"(list size then: {os.path.getsize(lst) if os.path.isfile(lst) else None} bytes)", {"op": "long-list-bind", "err": out[1]})
+    size = os.path.getsize(lst)
+
+    def all_served(when, live):
+        for j, p in enumerate(live):
+            o = common.retrieve_bytes(s, p)
+            if not is_ok(o) or o[1] != data:
+                ctx.violation("referenced-object-lost", f"{what} (list of {size} bytes), {when}: retrieve_object of bound pid "
+                              f"#{pids.index(p) + 1} ({p[:12]!r}..) {'raised ' + o[1] + ': ' + o[2][:160] if not is_ok(o) else 'returned other bytes'}",
+                              {"op": "long-list-retrieve", "err": o[1] if not is_ok(o) else "bytes"})
+    all_served("after the last binding", pids)
+    # delete in an order that takes the FIRST, the LAST and boundary neighbours early; the object must stay to the very end
+    order = [pids[0], pids[-1]] + pids[1:-1]
+    live = list(pids)
+    for n, p in enumerate(order):
+        out = common.call(s.delete_object, p)
+        live.remove(p)
+        if not is_ok(out):
+            ctx.violation("referenced-object-lost", f"{what}: delete_object of bound pid #{pids.index(p) + 1} raised {out[1]}: {out[2][:160]}",
+                          {"op": "long-list-delete", "err": out[1]})
+        if live and not os.path.isfile(obj):
+            ctx.violation("referenced-object-lost", f"{what}: after deleting {n + 1} of them the object is gone although {len(live)} pids still reference it",
+                          {"op": "long-list-delete", "err": "object-gone"})
+        if n in (0, 1, 2) or len(live) in (1, 2):
+            all_served(f"after deleting {n + 1} of them", live if len(live) < 40 else live[:20] + live[-20:])
+    if os.path.exists(obj) or os.path.exists(lst):
+        ctx.violation("object-outlives-last-reference", f"{what}: every pid deleted but object present={os.path.exists(obj)}, "
+                      f"list present={os.path.exists(lst)} ({os.path.getsize(lst) if os.path.isfile(lst) else 0} bytes)", {"op": "long-list-delete"})
+    a = common.alpha(run.root, cfg)
+    if a["objects"] or a["cidrefs"] or a["pidrefs"]:
+        ctx.violation("object-outlives-last-reference", f"{what}: every pid deleted but the store still holds objects={len(a['objects'])} "
+                      f"lists={len(a['cidrefs'])} pid files={len(a['pidrefs'])}", {"op": "long-list-delete"})
+    ctx.classify(case["family"])
+    ctx.nontrivial([case["family"], case.get("line"), case.get("n"), case.get("len"), case.get("long_first")])
+    ctx.sample({"family": case["family"], "pids": len(pids), "list_bytes": size})
+
+
+def _faulted_delete(case, ctx):
+    from .. import fault, scen
+    sc = scen.Scenario(case, ctx)
+    cfg = sc.cfg
+    X = sc.contents[0]
+    cid = cfg.digest(X)
+    ctx.evaluations -= 1
+    for inj, store, d, out in fault.faulted_runs(sc, errnos=("EIO",)):
+        ctx.count()
+        a = common.alpha(d, cfg)
+        where = f"{case['kind']} (cid ..{cid[-4:]}) with {inj.describe()}: delete_object {'returned' if is_ok(out) else 'raised ' + out[1]}"
+        for p in sc.pids():
+            if sc.served0[("obj", p)][0] != "ok":
+                continue
+            bound_now = a["pidrefs"].get(cfg.H(p)) == cid and p in a["cidrefs"].get(cid, [])
+            if not bound_now:
+                continue            # (what a failed delete may leave of the pid itself is C13's business)
+            o = common.retrieve_bytes(store, p)
+            if not is_ok(o) or o[1] != sc.served0[("obj", p)][1]:
+                ctx.violation("referenced-object-lost", f"{where}; pid {p!r} is still bound to the object (pid reference file and list entry "
+                              f"present) but retrieve_object {'raised ' + o[1] if not is_ok(o) else 'returned other bytes'}; object file present="
+                              f"{cid in a['objects']}, stray files: {a['residue'][:4]}", {"op": "faulted-delete", "err": o[1] if not is_ok(o) else "bytes",
+                                                                                         "site": inj.fired.kind})
+        ctx.classify("faulted-delete:" + ("raised" if not is_ok(out) else "returned"))
+        ctx.nontrivial(["faulted-delete", case["kind"], case["tail"], case["cfg"]["algo"], inj.fired.kind, fault.path_class(d, inj.fired),
+                        bool(inj.sticky), "ok" if is_ok(out) else "raised"])
+    ctx.sample({"family": "faulted-delete", "kind": case["kind"], "cid_tail": cid[-4:]})
+
+
 def run_case(case, ctx):
+    if case.get("family") == "faulted-delete":
+        return _faulted_delete(case, ctx)
+    if case.get("family") in ("long-list", "long-pid"):
+        return _long_list(case, ctx)
     run = seq.Run(case, ctx)
     cfg = run.cfg
     bound = {}  # pid -> content index (observational)
